@@ -51,10 +51,17 @@ class Shape(object):
             ('[%d] %s ' % (self.tagging[1], 'EXPLICIT' if self.tagging[0] == 'e' else 'IMPLICIT')) if self.tagging else '',
             {str(g): gen.ty_sexp(t) for g, t in self.typemap.items()})
 
-    def build(self, g, inners, inner_types):
+    def build(self, g, inners, inner_types, own_collection=False):
         obj = self.schema.clone()
         obj['id'] = g
-        if self.multi:
+        if self.multi and own_collection:
+            # the typed inner values in a collection object the caller built and assigns whole (valid: the field is an
+            # open type); the element tagging is the field's, not the collection's
+            coll = (univ.SequenceOf if self.multi == 'seqof' else univ.SetOf)(componentType=univ.Any())
+            for t, w in zip(inner_types, inners):
+                coll.append(gen.build_value(t, w))
+            obj['value'] = coll
+        elif self.multi:
             for t, w in zip(inner_types, inners):
                 obj['value'].append(gen.build_value(t, w))
         else:
@@ -73,6 +80,16 @@ def check_shape(rep, rng, shape, g, inner_types, inners, mapped):
     for mode in MODES:
         cdc, dm = mode
         rp = dict(replay, codec=cdc, defMode=dm)
+        if shape.multi:
+            # the same record with the inner values in a collection the caller built: same octets
+            try:
+                alt = enc(cdc, shape.build(g, inners, inner_types, own_collection=True), dm)
+                ref = enc(cdc, shape.build(g, inners, inner_types), dm)
+            except Exception:  # noqa
+                alt = ref = None
+            if alt != ref:
+                rep.fail(signature(shape, mapped, mode, 'own-collection'), 'inner values in a caller-built collection give %s, '
+                         'appended to the field %s' % (alt.hex()[:100], ref.hex()[:100]), rp)
         try:
             obj = shape.build(g, inners, inner_types)
             data = enc(cdc, obj, dm)
